@@ -207,16 +207,97 @@ def mirror_harness(ctx: Ctx):
             ctx.oblige(f"C04.mirror.frame.{key[0]}.{key[1]}", ctx.heap[key] == H0[key], **meta)
 
 
+def copy_harness(grad_kind, const_kind):
+    """Tensor.copy(constant=None): the mutated base of every in-place update is built with it (C04) and it must be
+    detached (C17).  ensures: result is a new tensor whose data is a fresh array with self.data's shape, dtype, value and --
+    for compact data -- *memory layout* (so that view ops replayed on it stay views); gradient copied into a fresh array
+    (None stays None); flag = self.constant unless given; nothing of self is written."""
+
+    def h(ctx: Ctx):
+        from pyvc.graphdom import COMPACT, KLAYOUT, CLAYOUT, graph_np
+
+        cfg = Config()
+        cfg.builtins = default_builtins()
+        heap = Heap(ctx)
+        interp = Interp(ctx, cfg)
+        TensorCls = interp.global_lookup(interp.module(TB), "Tensor")
+        cfg.ref_models["Tensor"] = TensorModel(heap, TensorCls)
+        cfg.ref_models["ndarray"] = NdModel(heap)
+        cfg.module_overrides["numpy"] = graph_np(heap)
+        top0 = heap.top
+        me = SRef("Tensor", z3.Int("self"))
+        ctx.assume(z3.And(1 <= me.ref, me.ref <= top0))
+        H0 = dict(ctx.heap)
+        d0 = H0[("Tensor", "data")][me.ref]
+        g0 = H0[("Tensor", "_grad")][me.ref]
+        ctx.assume(z3.And(1 <= d0, d0 <= top0, 0 <= g0, g0 <= top0))
+        if grad_kind == "none":
+            ctx.assume(g0 == 0)
+        else:
+            ctx.assume(g0 != 0)
+        made = []
+
+        def ctor(interp_, args, kwargs):
+            # contract of Tensor(x, constant=c) with default copy=True (C17/C10.init): a new tensor wrapping a copy made by np.array(x, copy=True)
+            x = args[0]
+            nt = heap.alloc("Tensor")
+            # np.array(x, copy=True) keeps order 'K'
+            arr = NdModel(heap).copy(interp_, x, "K")
+            heap.set("Tensor", "data", nt.ref, arr.ref)
+            heap.set("Tensor", "_grad", nt.ref, z3.IntVal(0))
+            heap.set("Tensor", "_creator", nt.ref, z3.IntVal(0))
+            heap.set("Tensor", "_base", nt.ref, z3.IntVal(0))
+            c = kwargs.get("constant")
+            heap.set("Tensor", "_constant", nt.ref, to_z3(c))
+            made.append((nt, x, kwargs))
+            return nt
+
+        cfg.summaries[f"{TB}:Tensor"] = ctor
+        f, _ = TensorCls.lookup(interp, "copy")
+        const = {"none": None, "given": z3.Bool("constant_arg")}[const_kind]
+        meta = dict(function=f"{TB}:Tensor.copy", grad=grad_kind, constant=const_kind)
+        tag = f"C04.copy[grad={grad_kind},constant={const_kind}]"
+        r = interp.call(f, [me], {"constant": const} if const is not None else {})
+        cur = ctx.heap
+        shp, dt, ly, vl, bs = (cur[("ndarray", f_)] for f_ in ("shape", "dtype", "layout", "val", "base"))
+        shp0, dt0, ly0, vl0 = (H0[("ndarray", f_)] for f_ in ("shape", "dtype", "layout", "val"))
+        ctx.oblige(f"{tag}.new_tensor", z3.And(r.ref > top0) if isinstance(r, SRef) else False, **meta)
+        if not isinstance(r, SRef):
+            return
+        rd = cur[("Tensor", "data")][r.ref]
+        ctx.oblige(f"{tag}.data_fresh_owner", z3.And(rd > top0, bs[rd] == 0), **meta)
+        ctx.oblige(f"{tag}.data_same_shape_dtype_value", z3.And(shp[rd] == shp0[d0], dt[rd] == dt0[d0], vl[rd] == vl0[d0]), **meta)
+        ctx.oblige(f"{tag}.data_same_layout", z3.Implies(COMPACT(ly0[d0]), ly[rd] == ly0[d0]), **meta)
+        rg = cur[("Tensor", "_grad")][r.ref]
+        if grad_kind == "none":
+            ctx.oblige(f"{tag}.no_grad", rg == 0, **meta)
+        else:
+            ctx.oblige(f"{tag}.grad_fresh_copy", z3.And(rg > top0, rg != rd, bs[rg] == 0, vl[rg] == vl0[g0], shp[rg] == shp0[g0], dt[rg] == dt0[g0]), **meta)
+        exp_flag = H0[("Tensor", "_constant")][me.ref] if const is None else const
+        ctx.oblige(f"{tag}.flag", cur[("Tensor", "_constant")][r.ref] == exp_flag, **meta)
+        ctx.oblige(f"{tag}.detached", z3.And(cur[("Tensor", "_creator")][r.ref] == 0, cur[("Tensor", "_base")][r.ref] == 0), **meta)
+        tS = z3.Int("t*")
+        for key, old in H0.items():
+            if key[0] == "Tensor":
+                ctx.oblige(f"{tag}.frame.{key[1]}", z3.Implies(z3.And(1 <= tS, tS <= top0), cur[key][tS] == old[tS]), **meta)
+        aS = z3.Int("a*")
+        for fld in ("shape", "dtype", "layout", "val", "base"):
+            ctx.oblige(f"{tag}.frame.arrays.{fld}", z3.Implies(z3.And(1 <= aS, aS <= top0), cur[("ndarray", fld)][aS] == H0[("ndarray", fld)][aS]), **meta)
+
+    return h
+
+
 def obligations(tier="quick"):
     out = []
     info = {"functions": {}, "unsupported": [], "paths": 0}
-    for q in (f"{DG}:reroute_ops_through", f"{DG}:mirror_tensor", f"{TB}:Tensor.__init__"):
+    for q in (f"{DG}:reroute_ops_through", f"{DG}:mirror_tensor", f"{TB}:Tensor.__init__", f"{TB}:Tensor.copy"):
         try:
             _m, node, _c = frontend.find(q)
             info["functions"][q] = frontend.source_hash(node)
         except frontend.ExtractionError as e:
             info["unsupported"].append(str(e))
-    for name, h in (("reroute", reroute_harness), ("mirror", mirror_harness)):
+    hs = [("reroute", reroute_harness), ("mirror", mirror_harness)] + [(f"copy[{g},{c}]", copy_harness(g, c)) for g in ("none", "some") for c in ("none", "given")]
+    for name, h in hs:
         results = explore(h)
         k = 0
         for r in results:
